@@ -279,6 +279,33 @@ def main(argv=None):
                                label=label), open(rfile, "w"), indent=1, default=str)
                 violations.append((f"{pid}/{r['target']}/{rep['failed'][0]}", rfile, True))
 
+    # order-dependence obligations generated from whole modules (ghost `ord` flag, see ordscan.py)
+    ord_assumed = []
+    if spec.get("ordscan"):
+        from pyvc.ordscan import scan_modules
+        from pyvc.source import REPO
+        for o in scan_modules(REPO, spec["ordscan"], os.path.join(ROOT, "contracts", "ord_sanitised.json")):
+            n_obl += 1
+            if o["status"] == "discharged":
+                n_dis += 1
+                if o["assumed"]:
+                    ord_assumed.append(f"{o['name']}: {o['site']} - {o['rule']}")
+                if len(samples_out) < 8:
+                    samples_out.append(dict(obligation=f"{pid}/{o['name']}", status="discharged", site=o["site"], rule=o["rule"]))
+                continue
+            rep = None
+            hook = spec.get("ord_replay")
+            if hook:
+                try:
+                    rep = hook()
+                except Exception:   # noqa
+                    rep = dict(error=traceback.format_exc()[-800:], failed=[])
+            rfile = os.path.join(ROOT, "replays", pid, _safe(o["name"]) + ".json")
+            json.dump(dict(property=pid, obligation=f"{pid}/{o['name']}", function=o["function"], site=o["site"], line=o["lineno"],
+                           status="set iteration order reaches an order-sensitive position; no sanitiser recorded for this site",
+                           replays=[rep] if rep else []), open(rfile, "w"), indent=1, default=str)
+            violations.append((f"{pid}/{o['name']}", rfile, bool(rep and rep.get("failed"))))
+
     # bounded stand-ins registered for this property
     bounded = []
     for b in spec.get("bounded", []):
@@ -341,7 +368,7 @@ def main(argv=None):
                                     note="real function executed natively on concrete inputs and the same contract clauses evaluated; bounded, not counted as proof"),
             explanation=spec.get("explanation", ""),
         ),
-        assumptions=list(spec.get("assumptions", [])) + ENCODING_ASSUMPTIONS,
+        assumptions=list(spec.get("assumptions", [])) + ENCODING_ASSUMPTIONS + [f"order sanitised downstream (assumed): {a}" for a in ord_assumed],
     )
     # an obligation with a listed known finding counts as neither discharged nor as a new violation
     evidence["coverage"]["obligations_with_known_finding"] = known_count
